@@ -1028,6 +1028,10 @@ class Model:
                         other_state, alg_state = alg_state, other_state
 
                 if alg_state is not None:
+                    # Only variables of the model can be aliased, not e.g. time
+                    if other_state.name() not in all_states:
+                        return False
+
                     # If either state is a derivative state, and aliasing of those
                     # is not allowed, skip aliasing them
                     if not options["allow_derivative_aliases"] and (
